@@ -1,0 +1,11 @@
+//go:build verif
+
+package client
+
+import "net/http"
+
+// NewWithHTTPClient constructs a LogClient that talks through the supplied
+// http.Client (verification harnesses serve the log from memory).
+func NewWithHTTPClient(uri string, hc *http.Client) *LogClient {
+	return &LogClient{Uri: uri, httpClient: hc}
+}
